@@ -155,6 +155,10 @@ impl<'a> AnalyzeContext<'a, '_> {
                     );
                     subpgm_region.add(return_subtype.into(), diagnostics);
                 }
+                if let Err(EvalError::Circular(err)) = &return_type {
+                    // Must not be hidden by an error of the parameters
+                    return Err(EvalError::Circular(err.clone()));
+                }
                 match ParameterRegion::from_formal_region(params?) {
                     Ok(params) => (Signature::new(params, Some(return_type?)), generic_map),
                     Err(invalid_formals) => {
@@ -251,6 +255,14 @@ impl<'a> AnalyzeContext<'a, '_> {
                 (args, None)
             }
         };
+
+        // A circular dependency must be reported no matter which other error exists:
+        // only then the result does not depend on the order of analysis of the units
+        for res in args.iter().chain(return_type.iter()) {
+            if let Err(EvalError::Circular(err)) = res {
+                return Err(EvalError::Circular(err.clone()));
+            }
+        }
 
         let mut params = Vec::with_capacity(args.len());
         for arg in args {
